@@ -240,6 +240,19 @@ func init() {
 					c.Distinct("nontrivial", bv.b+"|"+bv.v)
 				})
 			}
+			// several command objects in one process: each gates with the version it was constructed with, whatever was
+			// constructed before or after it
+			for _, tr := range []struct{ b, decoy, v string }{
+				{"1.4.0", "2.3.0", "2.0.0"}, {"1.4.0", "2.3.0", "1.2.0"}, {"0.3.1", "dev-main", "0.4.0"}, {"dev-main", "1.0.0", "9.9.9"}, {"2.3.0", "1.4.0", "2.2.0"}, {"1.4.0", "", "1.5.0"},
+			} {
+				tr := tr
+				w.Case("command-objects/B="+tr.b+"/then="+tr.decoy+"/V="+tr.v, func(c *C) {
+					ConstructAlso = []string{tr.decoy, "0.0.1"}
+					defer func() { ConstructAlso = nil }()
+					eval(c, tr.b, c18cfg(&tr.v, nil), c18expect(tr.b, tr.v), "command-objects-share-the-build-version")
+					c.Distinct("nontrivial", "objects|"+tr.b+"|"+tr.decoy+"|"+tr.v)
+				})
+			}
 			// non-semver builds: gate skipped
 			for _, b := range []string{"devel", "dev-main", "", "(devel)", "v1.2.3", "1.2.3.4", "01.2.3"} {
 				for _, v := range []string{"0.0.0", "1.2.3", "3.3.7-rc.1", "9.9.9"} {
